@@ -22,7 +22,21 @@ Theorem order_preserved : Statement.order_preserved.
 Proof. exact order_preserved_l. Qed.
 Print Assumptions order_preserved.
 
+(* both directions of a dmypy exchange: request (client -> server) and reply stream incl. the
+   WriteToConn stdout/stderr frames (server -> client loop of dmypy/client.py request()) *)
+Theorem request_delivered : Statement.request_delivered.
+Proof. exact request_delivered_l. Qed.
+Print Assumptions request_delivered.
+
+Theorem reply_stream_delivered : Statement.reply_stream_delivered.
+Proof. exact reply_stream_delivered_l. Qed.
+Print Assumptions reply_stream_delivered.
+
 (* non-vacuity *)
+Example reply_example :
+  read_until_final (fun b => match b with 1%N :: _ => true | _ => false end) 2 ipc_init
+    (feed [[0%N; 0%N; 0%N]; [2%N; 5%N; 6%N; 0%N; 0%N]; [0%N; 1%N; 1%N]]) = Some [[5%N; 6%N]; [1%N]].
+Proof. vm_compute. reflexivity. Qed.
 Example framing_example :
   read_all (feed [[0%N; 0%N]; []; [0%N; 2%N; 7%N]; [8%N; 0%N; 0%N; 0%N; 1%N; 9%N]]) = Some [[7%N; 8%N]; [9%N]]
   /\ concat [[0%N; 0%N]; []; [0%N; 2%N; 7%N]; [8%N; 0%N; 0%N; 0%N; 1%N; 9%N]] = wire [[7%N; 8%N]; [9%N]].
